@@ -24,7 +24,7 @@ from harness import sites as hs
 # Fermion
 # ------------------------------------------------------------------------------------------------
 FERM_INV = ['MatIsFock', 'LocalTablesRight', 'CAR', 'CARInProducts', 'NumberIsCdC', 'OrderCombineCorrect',
-            'OrderCombineContract', 'JWRouteCorrect', 'JWRouteOddRejected', 'TermOpsCorrect', 'CorrCorrect', 'HcCorrect']
+            'OrderCombineContract', 'OrderCombineIdempotent', 'OrderCombineShift', 'SplitProduct', 'JWRouteCorrect', 'JWRouteOddRejected', 'TermOpsCorrect', 'CorrCorrect', 'HcCorrect']
 
 
 def ferm_cfg(L, K, names, maxlen, spin_at=()):
@@ -181,6 +181,25 @@ def route_structure(ctx, env, st, key, dense=True):
         ctx.notes['fermion_structure_equal'] = ctx.notes.get('fermion_structure_equal', 0) + 1
     else:
         ctx.notes['fermion_structure_differs'] = ctx.notes.get('fermion_structure_differs', 0) + 1
+    if last.get('xjw'):
+        # an explicit op_string must be inserted on every segment, also between purely bosonic operators
+        try:
+            _, ijkl, ops, op_str = MultiCouplingTerms(env.L).multi_coupling_term_handle_JW(1.0, comb, env.sites, op_string='JW')
+            per = ['Id'] * env.L
+            for k_, i in enumerate(ijkl):
+                per[i] = ops[k_]
+            for k_, s_ in enumerate(op_str):
+                for r in range(ijkl[k_] + 1, ijkl[k_ + 1]):
+                    per[r] = s_
+            gotx = ('ok', sign * hs.kron_named(env.sites, per), list(op_str))
+        except ValueError as e:
+            gotx = ('ValueError', str(e), None)
+        ctx.case(('ferm', key, 'hj-explicit'), action='Fermion.handle_JW.explicit_op_string')
+        Ex = env.expected(last['xjw'])
+        if gotx[0] != 'ok' or not np.array_equal(gotx[1], Ex):
+            _fail(ctx, 'handle_JW-explicit-op_string', 'dense', env, st,
+                  dict(op_string_given='JW', op_string_returned=gotx[2], nonzero=_nz(gotx[1]) if gotx[0] == 'ok' else gotx[1]),
+                  dict(op_string=['JW'] * (len(comb) - 1), nonzero=_nz(Ex)))
     if not dense or last['odd']:
         return True
     # meaning of the returned arguments: tensor product of the named operators, strings in between
@@ -413,7 +432,7 @@ def fermion_configs(ctx):
             (6, 1, ['C', 'Cd'], 4, 0.008, ()),
             (6, 1, ['C', 'Cd'], 4, 0.06, (0, 2, 4)),            # spin, fermion, spin, fermion, ... : 1554 terms
             (4, 1, ['C', 'Cd', 'Sigmaz'], 3, 0.3, (1, 3)),
-            (3, 1, ['C', 'Cd', 'N'], 3, 0.1, ()),
+            (4, 1, ['C', 'Cd', 'N'], 3, 0.06, ()),
             (3, 2, ['Cu', 'Cdu', 'Cd', 'Cdd'], 2, 0.4, ()),
             (2, 2, ['Cu', 'Cdu', 'Cd', 'Cdd'], 4, 0.02, ()),
         ]
@@ -425,6 +444,189 @@ def fermion_configs(ctx):
         (3, 2, ['Cu', 'Cdu', 'Cd', 'Cdd'], 4, 0.12, ()),
         (2, 2, ['Cu', 'Cdu', 'Cd', 'Cdd', 'Nu', 'Nd'], 4, 0.15, ()),
     ]
+
+
+def _elem(mat, x, y):
+    """<y|T|x> from the spec's column encoding"""
+    v = mat[x]
+    if v == 0 or abs(v) - 1 != y:
+        return 0
+    return 1 if v > 0 else -1
+
+
+def _valid(env, term):
+    return all(0 <= i < env.L and env.sites[i].valid_opname(nm) for nm, i in term)
+
+
+def route_corr_family(ctx, env, st, key, xs, rng, lookup):
+    """term_correlation_function_left / _right with lists of offsets, term_list_correlation_function_right:
+    every returned number is a matrix element of a product term (another state of the model) or a bilinear sum of such."""
+    from tenpy.networks.mps import MPSEnvironment
+    from tenpy.networks.terms import TermList
+    last = st['last']
+    if last['odd'] or not last['splits']:
+        return True
+    term = _tterm(st['term'])
+    mat = last['mat']
+    ok = True
+
+    def shifted(t, k):
+        return [(nm, i + k) for nm, i in t]
+
+    def rel(t, o):
+        return [(nm, i - o) for nm, i in t]
+
+    def look(t):
+        return lookup.get(tuple(t))
+
+    for x in xs:
+        v = mat[x]
+        y = abs(v) - 1 if v else x
+        ket, bra = env.psi(x), env.psi(y)
+        obj = ket if y == x else MPSEnvironment(bra, ket)
+        who = dict(ket=env.labels[x], bra=env.labels[y])
+        for h in sorted(last['splits']):
+            tL, tR = term[:h], term[h:]
+            i0 = rng.choice([-1, 0, 1, 2])
+            j0 = rng.choice([0, 1, 2, 3, 5])
+            # ---- term_correlation_function_left: the left term moves over i_L (descending), the right one is fixed
+            iLs, exp = [i0], [_elem(mat, x, y)]
+            tL2 = shifted(tL, -1)
+            if _valid(env, tL2) and look(tL2 + tR) is not None:
+                iLs.append(i0 - 1)
+                exp.append(_elem(look(tL2 + tR), x, y))
+            try:
+                got = [complex(c) for c in obj.term_correlation_function_left(rel(tL, i0), rel(tR, j0), iLs, j0)]
+            except ValueError as e:
+                got = 'ValueError: %s' % e
+            ctx.case(('ferm', key, 'tcfl', h, x), action='Fermion.term_correlation_function_left')
+            if got != exp:
+                _fail(ctx, 'term_correlation_function_left', 'value', env, st,
+                      dict(got=str(got), term_L=rel(tL, i0), term_R=rel(tR, j0), i_L=iLs, j_R=j0, **who), exp)
+                ok = False
+            # ---- term_correlation_function_right over a list of j_R
+            jRs, exp = [j0], [_elem(mat, x, y)]
+            tR2 = shifted(tR, 1)
+            if _valid(env, tR2) and look(tL + tR2) is not None:
+                jRs.append(j0 + 1)
+                exp.append(_elem(look(tL + tR2), x, y))
+            try:
+                got = [complex(c) for c in obj.term_correlation_function_right(rel(tL, i0), rel(tR, j0), i0, jRs)]
+            except ValueError as e:
+                got = 'ValueError: %s' % e
+            ctx.case(('ferm', key, 'tcfr', h, x), action='Fermion.term_correlation_function_right')
+            if got != exp:
+                _fail(ctx, 'term_correlation_function_right', 'value-list', env, st,
+                      dict(got=str(got), term_L=rel(tL, i0), term_R=rel(tR, j0), i_L=i0, j_R=jRs, **who), exp)
+                ok = False
+            # ---- term_list_correlation_function_right: sums of terms with prefactors given as arrays
+            Ls, Rs = [tL], [tR]
+            if _valid(env, tL2) and all(look(tL2 + r) is not None for r in [tR, tR2] if _valid(env, r)):
+                Ls.append(tL2)
+            if _valid(env, tR2) and all(look(l + tR2) is not None for l in Ls):
+                Rs.append(tR2)
+            a = np.array([2.0, -0.5][:len(Ls)])
+            b = np.array([1.0, 4.0][:len(Rs)])
+            a0, b0 = a.copy(), b.copy()
+            exp = sum(a[k] * b[l] * _elem(look(Ls[k] + Rs[l]) if (k or l) else mat, x, y) for k in range(len(Ls)) for l in range(len(Rs)))
+            try:
+                got = complex(obj.term_list_correlation_function_right(TermList([rel(t, i0) for t in Ls], a),
+                                                                       TermList([rel(t, j0) for t in Rs], b), i0, [j0])[0])
+            except ValueError as e:
+                got = 'ValueError: %s' % e
+            ctx.case(('ferm', key, 'tlcf', h, x), action='Fermion.term_list_correlation_function_right')
+            if got != exp or not (np.array_equal(a, a0) and np.array_equal(b, b0)):
+                _fail(ctx, 'term_list_correlation_function_right', 'value' if got != exp else 'caller-array-mutated', env, st,
+                      dict(got=str(got), terms_L=[rel(t, i0) for t in Ls], strength_L=a0.tolist(), terms_R=[rel(t, j0) for t in Rs],
+                           strength_R=b0.tolist(), arrays_after=[a.tolist(), b.tolist()], i_L=i0, j_R=[j0], **who), complex(exp))
+                ok = False
+    return ok
+
+
+def route_termlist_history(ctx, env, st, key, x, rng, infinite=False):
+    """Histories of TermLists built from ONE caller-owned prefactor array: two lists from the same array, a shifted
+    copy, repeated order_combine, conversion to an MPO, repeated expectation_value_terms_sum (finite and infinite MPS).
+    Each list must carry strength*sign exactly once; the caller's array must never change."""
+    from tenpy.networks.terms import TermList
+    from tenpy.networks.mpo import MPOGraph
+    from tenpy.networks.mps import MPS
+    last = st['last']
+    if last['odd']:
+        return True
+    term = _tterm(st['term'])
+    a = rng.choice([1.0, 2.0, -0.5])
+    arr = np.array([a])
+    arr0 = arr.copy()
+    sg = last['oc']['sg']
+    spec_sorted = _tterm(last['oc']['t'])
+    ok = True
+
+    def bad(step, got, exp):
+        nonlocal ok
+        ok = False
+        _fail(ctx, 'TermList-history', step, env, st, dict(got=got, strength_array_given=arr0.tolist(), array_now=arr.tolist()), exp)
+
+    def expanded(tl):
+        return [(nm, i) for (op, i) in tl.terms[0] for nm in op.split()]
+
+    ctx.case(('ferm', key, 'tlh'), action='Fermion.TermList-history')
+    tlA = TermList([list(term)], arr)
+    tlB = TermList([list(term)], arr)
+    kmax = env.L - 1 - max(i for _, i in term)
+    kmin = -min(i for _, i in term)
+    ks = [k_ for k_ in range(kmax, kmin - 1, -1) if k_ != 0 and _valid(env, [(nm, i + k_) for nm, i in term])]
+    k = ks[0] if ks else 0          # (on a heterogeneous chain only shifts that keep every operator on its kind of site)
+    tlS = tlA.shift(k)
+    tlS.order_combine(env.sites)                     # the shifted copy is ordered first
+    if expanded(tlS) == [(nm, i + k) for nm, i in spec_sorted] and tlS.strength.tolist() != [a * sg]:
+        bad('shifted-copy-strength', tlS.strength.tolist(), [a * sg])
+    if tlA.strength.tolist() != [a] or tlB.strength.tolist() != [a] or not np.array_equal(arr, arr0):
+        bad('aliasing-after-shift', dict(A=tlA.strength.tolist(), B=tlB.strength.tolist()), [a])
+    tlA.order_combine(env.sites)
+    same = expanded(tlA) == spec_sorted
+    if same and tlA.strength.tolist() != [a * sg]:
+        bad('order_combine-strength', tlA.strength.tolist(), [a * sg])
+    tlA.order_combine(env.sites)                     # idempotent
+    if same and tlA.strength.tolist() != [a * sg]:
+        bad('order_combine-twice', tlA.strength.tolist(), [a * sg])
+    if tlB.strength.tolist() != [a] or not np.array_equal(arr, arr0):
+        bad('aliasing-after-order_combine', dict(B=tlB.strength.tolist()), [a])
+    # the second list (still unsorted) -> MPO: a * T
+    E = a * env.expected(last['mat'])
+    try:
+        ot, ct = tlB.to_OnsiteTerms_CouplingTerms(env.sites)
+        D = hs.mpo_dense(MPOGraph.from_terms((ot, ct), env.sites, 'finite').build_MPO())
+        if not np.array_equal(D, E):
+            bad('second-list-MPO', dict(nonzero=_nz(D)), dict(nonzero=_nz(E)))
+    except ValueError as e:
+        bad('second-list-MPO', 'ValueError: %s' % e, 'dense matrix')
+    # repeated expectation_value_terms_sum with the caller's array
+    expv = a * _elem(last['mat'], x, x)
+    psi = env.psi(x)
+    got = []
+    for rep in range(2):
+        try:
+            got.append(complex(psi.expectation_value_terms_sum(TermList([list(term)], arr))[0]))
+        except ValueError as e:
+            got.append('ValueError: %s' % e)
+    if got != [expv, expv] or not np.array_equal(arr, arr0):
+        bad('expectation_value_terms_sum-repeated', [str(g) for g in got], [expv, expv])
+    if infinite:
+        # the same term one unit cell to the left on the infinite product state (an even term carries no string out of the cell)
+        ipsi = env._psi.get(('inf', x))
+        if ipsi is None:
+            ipsi = env._psi[('inf', x)] = MPS.from_product_state(env.sites, env.labels[x], 'infinite')
+        tl = TermList([[(nm, i - env.L) for nm, i in term]], arr)
+        got = []
+        for rep in range(2):
+            try:
+                got.append(complex(ipsi.expectation_value_terms_sum(tl)[0]))
+            except ValueError as e:
+                got.append('ValueError: %s' % e)
+        ctx.case(('ferm', key, 'tlh-inf'), action='Fermion.TermList-history.infinite')
+        if got != [expv, expv] or not np.array_equal(arr, arr0):
+            bad('expectation_value_terms_sum-infinite-repeated', [str(g) for g in got], [expv, expv])
+    return ok
 
 
 def get_env(ctx, envs, K, L, cons, spin_at=()):
@@ -455,9 +657,9 @@ def run_fermion(ctx, configs, futures):
         conss = K1_CONS if K == 1 else K2_CONS
         n = 0
         cov = {}
-        for st in tlaval.iter_dump(dump):
-            if not st['term']:
-                continue
+        states = [st for st in tlaval.iter_dump(dump) if st['term']]
+        lookup = {tuple(_tterm(st['term'])): st['last']['mat'] for st in states}      # product terms are states themselves
+        for st in states:
             n += 1
             nm_last = st['term'][-1][0]
             act = 'AppendSpin' if nm_last == 'Sigmaz' else 'AppendNum' if nm_last in ('N', 'Nu', 'Nd') else ('AppendAnn' if nm_last in ('C', 'Cu') or (nm_last == 'Cd' and K == 2) else 'AppendCre')
@@ -490,6 +692,10 @@ def run_fermion(ctx, configs, futures):
                 xs = set(rng.sample(nz, min(len(nz), 2 if quick else 4)))
                 xs.add(rng.randrange(nb))
                 route_mps(ctx, env, st, key, sorted(xs), rng)
+                route_corr_family(ctx, env, st, key, sorted(xs)[:2], rng, lookup)
+                diag = [x for x in nz if abs(last['mat'][x]) - 1 == x]
+                route_termlist_history(ctx, env, st, key, rng.choice(diag) if diag else rng.randrange(nb), rng,
+                                       infinite=bool(diag) and not spin_at and rng.random() < 0.5)
             if n == 77:
                 ctx.sample(dict(spec='Fermion', config=name, term=_tterm(st['term']),
                                 last=tlaval.to_jsonable({k: v for k, v in last.items()})))
@@ -673,6 +879,24 @@ def check_table(ctx, site, T, key, stage, order, chg, qnames, qmod, extra=None):
             bad('charge_to_JW_signs', list(signs), expd)
     elif stage == 'site' and T['c2jw']['def'] == 'yes' and any(T['c2jw']['v']):
         bad('charge_to_JW_parity-missing', None, list(T['c2jw']['v']))
+    # add_op with a matrix written in the documented (conserve=None) basis order: the default must account for
+    # the permutation the sorting of the charges caused (used_sort_charge / perm)
+    for nm in ('Sp', 'Cd', 'Cdu', 'Bd', 'X'):
+        if nm in T['ops']:
+            A = np.zeros((d, d), complex)
+            for to, fr, e in T['ops'][nm]:
+                A[to - 1, fr - 1] = entry_value(e, T['Mod'])
+            ctx.case((stage, key, 'add_op'), action='Sites.%s.add_op' % stage)
+            try:
+                site.add_op('VerifNew', A if np.any(A.imag) else A.real)
+                r = compare_matrix(site.get_op('VerifNew').to_ndarray(), T['ops'][nm], T['Mod'], pos, False)
+                site.remove_op('VerifNew')
+            except ValueError as e:
+                r = dict(what='ValueError', got=str(e)[:300])
+            if r is not None:
+                bad('add_op-after-sort', dict(copy_of=nm, perm=[int(x) for x in site.perm], used_sort_charge=bool(site.used_sort_charge), **r),
+                    'the same operator as %s' % nm)
+            break
     return ok
 
 
@@ -706,7 +930,7 @@ def replay_common(ctx, tabs, grp, key):
     sig_extra = dict(pol=grp['pol'])
     ctx.case(('common', key), action='Sites.set_common_charges')
     try:
-        perms = set_common_charges(sites, grp['pol'])
+        perms = set_common_charges(sites, [[(1, 0, 0), (-1, 1, 0)]] if grp['pol'] == 'diff' else grp['pol'])
         got = 'ok'
     except ValueError as e:
         got = 'ValueError: %s' % e
@@ -726,6 +950,47 @@ def replay_common(ctx, tabs, grp, key):
             continue
         ok &= check_table(ctx, site, T, key + (s,), 'common', grp['tabs'][s]['order'], grp['tabs'][s]['chg'], grp['qnames'],
                           grp['qmod'], sig_extra)
+    if ok and len(sites) == 2:
+        ok &= hetero_cell_correlations(ctx, sites, tabs, key, sig_extra)
+    return ok
+
+
+def hetero_cell_correlations(ctx, sites, tabs, key, sig_extra):
+    """<Id_0 A_j> for j = 1, 2, 3 on the chain a b a b, A a diagonal operator name both sites define (with their own
+    matrices): the correlation-function family must use the operator of the site it lands on."""
+    from tenpy.networks.mps import MPS
+    from tenpy.networks.terms import TermList
+    diag = []
+    for nm in sorted(set(tabs[0]['ops']) & set(tabs[1]['ops']) - {'Id', 'JW'}):
+        if all(to == fr for T in tabs for to, fr, e in T['ops'][nm]) and not any(nm in T['jw'] for T in tabs):
+            diag.append(nm)
+    if not diag:
+        return True
+    ks = [T['d'] for T in tabs]                       # the last documented state of each site
+    labs = [state_labels_of(T, k - 1)[0] for T, k in zip(tabs, ks)]
+    chain = [sites[0], sites[1]] * 2
+    psi = MPS.from_product_state(chain, labs * 2, 'finite')
+    ok = True
+    for nm in diag:
+        vals = []
+        for T, k in zip(tabs, ks):
+            e = [en for to, fr, en in T['ops'][nm] if to == k]
+            vals.append(complex(entry_value(e[0], T['Mod'])) if e else 0j)
+        exp = [vals[1], vals[0], vals[1]]
+        for route in ('term_correlation_function_right', 'term_list_correlation_function_right'):
+            ctx.case(('common', key, route, nm), action='Sites.hetero-cell.' + route)
+            try:
+                if route == 'term_correlation_function_right':
+                    got = psi.term_correlation_function_right([('Id', 0)], [(nm, 0)], 0, [1, 2, 3])
+                else:
+                    got = psi.term_list_correlation_function_right(TermList([[('Id', 0)]], [1.]), TermList([[(nm, 0)]], [1.]), 0, [1, 2, 3])
+                got = [complex(g) for g in got]
+                good = all(abs(g - e) < 1e-13 for g, e in zip(got, exp))
+            except Exception as e:  # noqa
+                got, good = '%s: %s' % (type(e).__name__, e), False
+            if not good:
+                ok = site_fail(ctx, 'common', 'hetero-cell-' + route, dict(cls='chain', par=[T['cls'] for T in tabs], cons=[T['cons'] for T in tabs]),
+                               dict(op=nm, product_state=labs * 2, j_R=[1, 2, 3], got=str(got)), [str(e) for e in exp], sig_extra)
     return ok
 
 
@@ -906,7 +1171,7 @@ def run_sites(ctx, fut):
         counts[op] = counts.get(op, 0) + 1
         if op in ('init', 'pick'):
             continue
-        direct_same = op == 'GroupedSite' and st['grp']['pol'] == 'same'   # sites that really share a ChargeInfo: always replayed
+        direct_same = (op == 'GroupedSite' and st['grp']['pol'] == 'same') or st['grp'].get('pol') == 'diff'   # always replayed
         if op in ('set_common_charges', 'GroupedSite', 'set_common_charges+GroupedSite') and quick and not direct_same \
                 and rng.random() > 0.15:
             continue      # quick tier: a seeded share of the other groupings is replayed (all of them are model-checked)
